@@ -1,5 +1,15 @@
 import OH.Props.C06
+import OH.Props.TablesC06
 #print axioms OH.Props.C06.C06_printed_number_shape
 #print axioms OH.Props.C06.C06_printed_number_reparses
 #print axioms OH.Props.C06.C06_day_offset_roundtrip
 #print axioms OH.Props.C06.C06_time_of_day_roundtrip
+#print axioms OH.Props.TablesC06.C06_wday_names
+#print axioms OH.Props.TablesC06.C06_wday_names_complete
+#print axioms OH.Props.TablesC06.C06_month_names
+#print axioms OH.Props.TablesC06.C06_month_names_complete
+#print axioms OH.Props.TablesC06.C06_holiday_names
+#print axioms OH.Props.TablesC06.C06_kind_names
+#print axioms OH.Props.TablesC06.C06_event_names
+#print axioms OH.Props.TablesC06.C06_separators
+#print axioms OH.Props.TablesC06.C06_tables_complete
